@@ -114,13 +114,29 @@ theorem writeField_roundF {p : Nat} (hp : 0 < p) {y : Flt} (h : fitsB (fF p) y.t
     rw [hf]
     simpa using hl
 
-theorem scale_ne_zero {u : Str} {s : Rat} (h : unitScale u = .ok s) : s ≠ 0 := by
+theorem unitScale_cases {u : Str} {s : Rat} (h : unitScale u = .ok s) :
+    (u = [] ∧ s = 1) ∨ (u = feet ∧ s = mkRat 381 1250) := by
   unfold unitScale at h
-  split at h
-  · cases h; decide
-  · split at h
-    · cases h; decide
-    · cases h
+  simp only [Gen.GeoTables.unitScale, List.find?_cons, List.find?_nil] at h
+  by_cases h1 : u = []
+  · subst h1
+    simp only [decide_true] at h
+    cases h
+    exact Or.inl ⟨rfl, by decide⟩
+  · have e1 : decide (([] : List Char) = u) = false := by simpa using h1
+    simp only [e1] at h
+    by_cases h2 : u = feet
+    · subst h2
+      have e2 : decide (['F', 'E', 'E', 'T', ' '] = feet) = true := by decide
+      simp only [e2] at h
+      cases h
+      exact Or.inr ⟨rfl, rfl⟩
+    · have e2 : decide (['F', 'E', 'E', 'T', ' '] = u) = false := by simpa [feet, eq_comm] using h2
+      simp only [e2] at h
+      cases h
+
+theorem scale_ne_zero {u : Str} {s : Rat} (h : unitScale u = .ok s) : s ≠ 0 := by
+  rcases unitScale_cases h with ⟨_, rfl⟩ | ⟨_, rfl⟩ <;> decide
 
 theorem mul_div_flt (x : Flt) {s : Rat} (hs : s ≠ 0) : (x.mul s).div s = x := by
   cases x with
